@@ -8,6 +8,7 @@
 (*                                                                         *)
 (* DEPTH = 1: every unary and binary operator over every (pair of) leaves  *)
 (* DEPTH = 2: op1(op2(a, b), c) and op1(a, op2(b, c)) over reduced pools,  *)
+(* DEPTH = 3: a unary operator (not, minus) under / over a binary one,      *)
 (*            the slice selected by SLICE of MOD                           *)
 (***************************************************************************)
 EXTENDS Integers, Sequences, FiniteSets, TLC, Json
@@ -67,7 +68,14 @@ Depth2 ==
   UNION { {Bn(q[1], Bn(q[2], V(q[3]), V(q[4])), V(q[5])), Bn(q[1], V(q[3]), Bn(q[2], V(q[4]), V(q[5])))} :
           q \in {p \in Ops2 \X Ops2 \X Names \X Names \X Names : Pick(p[1], p[2], p[3], p[4], p[5])} }
 
-Exprs == IF DEPTH = 1 THEN Depth1 ELSE Depth2
+\* DEPTH = 3: the unary operators not / minus under and over a binary operator - `not a == b` is `(not a) == b`,
+\* `-a + b` is `(-a) + b`: the unary operators bind tighter than every binary one - over the pool, sliced like Depth2
+PickM(o, u, a, b) == (Pos(OpSeq, o) * 131 + (IF u = "!" THEN 71 ELSE 0) + Pos(NameSeq, a) * 31 + Pos(NameSeq, b) * 17) % MOD = SLICE
+Mixed ==
+  UNION { {Bn(q[1], U(q[2], V(q[3])), V(q[4])), Bn(q[1], V(q[3]), U(q[2], V(q[4]))), U(q[2], Bn(q[1], V(q[3]), V(q[4])))} :
+          q \in {p \in Ops2 \X {"_", "!"} \X Names \X Names : PickM(p[1], p[2], p[3], p[4])} }
+
+Exprs == IF DEPTH = 1 THEN Depth1 ELSE IF DEPTH = 2 THEN Depth2 ELSE Mixed
 
 VARIABLE e
 vars == <<e>>
